@@ -335,7 +335,7 @@ func genOps(rt *rapid.T) []Op {
 }
 
 func TestMachines(t *testing.T) {
-	pbt.Check(t, 400, 8000, func(rt *rapid.T) {
+	pbt.Check(t, 400, 3200, func(rt *rapid.T) {
 		c := Case{G0: gen.Graph(rt, 6, 12), G1: genSized(rt), Ops: genOps(rt)}
 		pbt.Current(rt, c)
 		if pbt.WantSample(rt) {
